@@ -4,5 +4,555 @@
 import Theo.Spec.CFG
 
 namespace Theo
+namespace FirstProofs
 
+/-! ### `unionNat` -/
+
+theorem unionNat_cons (a : List Nat) (y : Nat) (b : List Nat) :
+    unionNat a (y :: b) = unionNat (if a.contains y then a else a ++ [y]) b := rfl
+
+theorem mem_unionNat {x : Nat} {a b : List Nat} : x ∈ unionNat a b ↔ x ∈ a ∨ x ∈ b := by
+  induction b generalizing a with
+  | nil => simp [unionNat]
+  | cons y b ih =>
+    rw [unionNat_cons, ih]
+    by_cases h : y ∈ a
+    · simp [h]; grind
+    · simp [h]; grind
+
+theorem unionNat_prefix (a b : List Nat) : a <+: unionNat a b := by
+  induction b generalizing a with
+  | nil => simp [unionNat]
+  | cons y b ih =>
+    rw [unionNat_cons]
+    by_cases h : y ∈ a
+    · simpa [h] using ih a
+    · simp only [List.contains_iff_mem, h, if_false]
+      exact List.IsPrefix.trans (List.prefix_append a [y]) (ih _)
+
+theorem unionNat_nodup {a : List Nat} (b : List Nat) (ha : a.Nodup) : (unionNat a b).Nodup := by
+  induction b generalizing a with
+  | nil => simpa [unionNat] using ha
+  | cons y b ih =>
+    rw [unionNat_cons]
+    by_cases h : y ∈ a
+    · simpa [h] using ih ha
+    · simp only [List.contains_iff_mem, h, if_false]
+      apply ih
+      rw [List.nodup_append]
+      refine ⟨ha, by simp, ?_⟩
+      intro x hx y' hy'
+      simp at hy'
+      subst hy'
+      intro hxy; subst hxy; exact h hx
+
+/-! ### `firstOfString` -/
+
+theorem fos_nil (fi : FirstInfo) : firstOfString fi [] = ([], true) := rfl
+theorem fos_eps (fi : FirstInfo) (r : List Sym) : firstOfString fi (.eps :: r) = ([], false) := rfl
+theorem fos_t (fi : FirstInfo) (i : Nat) (r : List Sym) :
+    firstOfString fi (.t i :: r) = ([i], false) := rfl
+theorem fos_n (fi : FirstInfo) (k : Nat) (r : List Sym) :
+    firstOfString fi (.n k :: r) =
+      if fi.nullOf k then
+        (unionNat (fi.firstOf k) (firstOfString fi r).1, (firstOfString fi r).2)
+      else (fi.firstOf k, false) := rfl
+
+theorem mem_fos_append (fi : FirstInfo) (p q : List Sym) (a : Nat) :
+    a ∈ (firstOfString fi (p ++ q)).1 ↔
+      a ∈ (firstOfString fi p).1 ∨ ((firstOfString fi p).2 = true ∧ a ∈ (firstOfString fi q).1) := by
+  induction p with
+  | nil => simp [fos_nil]
+  | cons s p ih =>
+    cases s with
+    | eps => simp [fos_eps]
+    | t i => simp [fos_t]
+    | n k =>
+      simp only [List.cons_append, fos_n]
+      by_cases h : fi.nullOf k = true
+      · simp only [h, if_true, mem_unionNat, ih]; grind
+      · simp [h]
+
+theorem null_fos_append (fi : FirstInfo) (p q : List Sym) :
+    (firstOfString fi (p ++ q)).2 = true ↔
+      (firstOfString fi p).2 = true ∧ (firstOfString fi q).2 = true := by
+  induction p with
+  | nil => simp [fos_nil]
+  | cons s p ih =>
+    cases s with
+    | eps => simp [fos_eps]
+    | t i => simp [fos_t]
+    | n k =>
+      simp only [List.cons_append, fos_n]
+      by_cases h : fi.nullOf k = true
+      · simp only [h, if_true, ih]
+      · simp [h]
+
+/-! ### sentential-form derivations -/
+
+theorem sd_trans {g : Grammar} {α β γ : List Sym}
+    (h1 : SDerives g α β) (h2 : SDerives g β γ) : SDerives g α γ := by
+  induction h1 with
+  | refl _ => exact h2
+  | step hk _ ih => exact SDerives.step hk (ih h2)
+
+theorem sd_context {g : Grammar} {α β : List Sym} (p q : List Sym)
+    (h : SDerives g α β) : SDerives g (p ++ α ++ q) (p ++ β ++ q) := by
+  induction h with
+  | refl _ => exact SDerives.refl _
+  | @step pre post rhs β n k hk _ ih =>
+    have := SDerives.step (g := g) (pre := p ++ pre) (post := post ++ q) hk
+      (by simpa [List.append_assoc] using ih)
+    simpa [List.append_assoc] using this
+
+theorem sd_single {g : Grammar} {n k : Nat} {rhs : List Sym}
+    (hk : (g.alts n)[k]? = some rhs) : SDerives g [.n n] rhs := by
+  have := SDerives.step (g := g) (pre := []) (post := []) hk
+    (by simpa using SDerives.refl rhs)
+  simpa using this
+
+theorem sd_cons_left {g : Grammar} {α β : List Sym} (s : Sym)
+    (h : SDerives g α β) : SDerives g (s :: α) (s :: β) := by
+  simpa using sd_context [s] [] h
+
+theorem sd_append_right {g : Grammar} {α β : List Sym} (q : List Sym)
+    (h : SDerives g α β) : SDerives g (α ++ q) (β ++ q) := by
+  simpa using sd_context [] q h
+
+/-! ### soundness -/
+
+def FISound (g : Grammar) (fi : FirstInfo) : Prop :=
+  (∀ n a, a ∈ fi.firstOf n → First g n a) ∧ (∀ n, fi.nullOf n = true → Nullable g n)
+
+theorem fos_sound {g : Grammar} {fi : FirstInfo} (hs : FISound g fi) (ss : List Sym) :
+    (∀ a ∈ (firstOfString fi ss).1, ∃ β, SDerives g ss (.t a :: β)) ∧
+    ((firstOfString fi ss).2 = true → SDerives g ss []) := by
+  induction ss with
+  | nil => simp [fos_nil]; exact SDerives.refl _
+  | cons s r ih =>
+    cases s with
+    | eps => simp [fos_eps]
+    | t i =>
+      simp only [fos_t]
+      refine ⟨?_, by simp⟩
+      intro a ha
+      simp at ha; subst ha
+      exact ⟨r, SDerives.refl _⟩
+    | n k =>
+      have hfirst : ∀ a ∈ fi.firstOf k, ∃ β, SDerives g (.n k :: r) (.t a :: β) := by
+        intro a ha
+        obtain ⟨β, hβ⟩ := hs.1 k a ha
+        exact ⟨β ++ r, by simpa using sd_append_right r hβ⟩
+      rw [fos_n]
+      by_cases h : fi.nullOf k = true
+      · have hnull : SDerives g (.n k :: r) r := by
+          simpa using sd_append_right r (hs.2 k h)
+        simp only [h, if_true, mem_unionNat]
+        refine ⟨?_, fun hr => sd_trans hnull (ih.2 hr)⟩
+        rintro a (ha | ha)
+        · exact hfirst a ha
+        · obtain ⟨β, hβ⟩ := ih.1 a ha
+          exact ⟨β, sd_trans hnull hβ⟩
+      · simp only [h]
+        exact ⟨hfirst, by simp⟩
+
+/-! ### one round -/
+
+/-- the accumulator step of `firstRound` -/
+def stepF (fi : FirstInfo) (acc : List Nat × Bool) (a : List Sym) : List Nat × Bool :=
+  (unionNat acc.1 (firstOfString fi a).1, acc.2 || (firstOfString fi a).2)
+
+/-- the new (FIRST, nullable) pair of non-terminal `n` after one round -/
+def roundAcc (g : Grammar) (fi : FirstInfo) (n : Nat) : List Nat × Bool :=
+  (g.alts n).foldl (stepF fi) (fi.firstOf n, fi.nullOf n)
+
+theorem firstRound_eq (g : Grammar) (fi : FirstInfo) :
+    firstRound g fi =
+      ⟨((List.range g.numNT).map (roundAcc g fi)).map (·.1),
+       ((List.range g.numNT).map (roundAcc g fi)).map (·.2)⟩ := rfl
+
+theorem round_firsts_length (g : Grammar) (fi : FirstInfo) :
+    (firstRound g fi).firsts.length = g.numNT := by simp [firstRound_eq]
+
+theorem round_nullable_length (g : Grammar) (fi : FirstInfo) :
+    (firstRound g fi).nullable.length = g.numNT := by simp [firstRound_eq]
+
+theorem round_firstOf {g : Grammar} {fi : FirstInfo} {n : Nat} (hn : n < g.numNT) :
+    (firstRound g fi).firstOf n = (roundAcc g fi n).1 := by
+  simp [firstRound_eq, FirstInfo.firstOf, hn]
+
+theorem round_nullOf {g : Grammar} {fi : FirstInfo} {n : Nat} (hn : n < g.numNT) :
+    (firstRound g fi).nullOf n = (roundAcc g fi n).2 := by
+  simp [firstRound_eq, FirstInfo.nullOf, hn]
+
+theorem round_firstOf_ge {g : Grammar} {fi : FirstInfo} {n : Nat} (hn : g.numNT ≤ n) :
+    (firstRound g fi).firstOf n = [] := by
+  simp [firstRound_eq, FirstInfo.firstOf, hn]
+
+theorem round_nullOf_ge {g : Grammar} {fi : FirstInfo} {n : Nat} (hn : g.numNT ≤ n) :
+    (firstRound g fi).nullOf n = false := by
+  simp [firstRound_eq, FirstInfo.nullOf, hn]
+
+theorem mem_foldl_stepF (fi : FirstInfo) (as : List (List Sym)) (init : List Nat × Bool) (x : Nat) :
+    x ∈ (as.foldl (stepF fi) init).1 ↔ x ∈ init.1 ∨ ∃ a ∈ as, x ∈ (firstOfString fi a).1 := by
+  induction as generalizing init with
+  | nil => simp
+  | cons a as ih =>
+    rw [List.foldl_cons, ih]
+    simp only [stepF, mem_unionNat, List.mem_cons, exists_eq_or_imp, or_assoc]
+
+theorem null_foldl_stepF (fi : FirstInfo) (as : List (List Sym)) (init : List Nat × Bool) :
+    (as.foldl (stepF fi) init).2 = true ↔
+      init.2 = true ∨ ∃ a ∈ as, (firstOfString fi a).2 = true := by
+  induction as generalizing init with
+  | nil => simp
+  | cons a as ih =>
+    rw [List.foldl_cons, ih]
+    simp only [stepF, Bool.or_eq_true, List.mem_cons, exists_eq_or_imp, or_assoc]
+
+theorem prefix_foldl_stepF (fi : FirstInfo) (as : List (List Sym)) (init : List Nat × Bool) :
+    init.1 <+: (as.foldl (stepF fi) init).1 := by
+  induction as generalizing init with
+  | nil => simp
+  | cons a as ih =>
+    rw [List.foldl_cons]
+    exact List.IsPrefix.trans (unionNat_prefix init.1 (firstOfString fi a).1) (ih (stepF fi init a))
+
+theorem nodup_foldl_stepF (fi : FirstInfo) (as : List (List Sym)) (init : List Nat × Bool)
+    (h : init.1.Nodup) : (as.foldl (stepF fi) init).1.Nodup := by
+  induction as generalizing init with
+  | nil => simpa
+  | cons a as ih =>
+    rw [List.foldl_cons]
+    exact ih _ (unionNat_nodup _ h)
+
+theorem round_sound {g : Grammar} {fi : FirstInfo} (hs : FISound g fi) :
+    FISound g (firstRound g fi) := by
+  constructor
+  · intro n a ha
+    by_cases hn : n < g.numNT
+    · rw [round_firstOf hn, roundAcc, mem_foldl_stepF] at ha
+      rcases ha with ha | ⟨rhs, hrhs, ha⟩
+      · exact hs.1 n a ha
+      · obtain ⟨k, hk⟩ := List.getElem?_of_mem hrhs
+        obtain ⟨β, hβ⟩ := (fos_sound hs rhs).1 a ha
+        exact ⟨β, sd_trans (sd_single hk) hβ⟩
+    · rw [round_firstOf_ge (by omega)] at ha
+      simp at ha
+  · intro n hnull
+    by_cases hn : n < g.numNT
+    · rw [round_nullOf hn, roundAcc, null_foldl_stepF] at hnull
+      rcases hnull with h | ⟨rhs, hrhs, h⟩
+      · exact hs.2 n h
+      · obtain ⟨k, hk⟩ := List.getElem?_of_mem hrhs
+        exact sd_trans (sd_single hk) ((fos_sound hs rhs).2 h)
+    · rw [round_nullOf_ge (by omega)] at hnull
+      simp at hnull
+
+theorem iter_sound {g : Grammar} (k : Nat) {fi : FirstInfo} (hs : FISound g fi) :
+    FISound g (firstIter g k fi) := by
+  induction k generalizing fi with
+  | zero => exact hs
+  | succ k ih =>
+    simp only [firstIter]
+    split
+    · exact hs
+    · exact ih (round_sound hs)
+
+def initFI (g : Grammar) : FirstInfo := ⟨List.replicate g.numNT [], List.replicate g.numNT false⟩
+
+theorem init_firstOf (g : Grammar) (n : Nat) : (initFI g).firstOf n = [] := by
+  simp only [initFI, FirstInfo.firstOf, List.getElem?_replicate]
+  split <;> rfl
+
+theorem init_nullOf (g : Grammar) (n : Nat) : (initFI g).nullOf n = false := by
+  simp only [initFI, FirstInfo.nullOf, List.getElem?_replicate]
+  split <;> rfl
+
+theorem firstSets_eq (g : Grammar) :
+    firstSets g = firstIter g (g.numNT * (g.terminals.eraseDups.length + 1) + 1) (initFI g) := rfl
+
+theorem firstSets_sound (g : Grammar) : FISound g (firstSets g) := by
+  rw [firstSets_eq]
+  apply iter_sound
+  constructor
+  · intro n a ha; rw [init_firstOf] at ha; simp at ha
+  · intro n h; rw [init_nullOf] at h; simp at h
+
+/-! ### a fixed point of `firstRound` is complete -/
+
+theorem alts_entry {g : Grammar} {n : Nat} {rhs : List Sym} (h : rhs ∈ g.alts n) :
+    ∃ e ∈ g.prods, e.1 = n ∧ rhs ∈ e.2 := by
+  unfold Grammar.alts at h
+  cases hf : g.prods.find? (fun e => e.1 = n) with
+  | none => simp [hf] at h
+  | some e =>
+    simp [hf] at h
+    have h1 := List.mem_of_find?_eq_some hf
+    have h2 := List.find?_some hf
+    exact ⟨e, h1, by simpa using h2, h⟩
+
+theorem alts_lhs_lt {g : Grammar} (hg : g.Closed) {n : Nat} {rhs : List Sym}
+    (h : rhs ∈ g.alts n) : n < g.numNT := by
+  obtain ⟨e, he, hn, _⟩ := alts_entry h
+  exact hn ▸ (hg e he).1
+
+theorem alts_terminal {g : Grammar} {n i : Nat} {rhs : List Sym}
+    (h : rhs ∈ g.alts n) (hi : Sym.t i ∈ rhs) : i ∈ g.terminals := by
+  obtain ⟨e, he, _, hr⟩ := alts_entry h
+  simp only [Grammar.terminals, List.mem_flatMap, List.mem_filterMap]
+  exact ⟨e, he, rhs, hr, .t i, hi, rfl⟩
+
+theorem fix_mono {g : Grammar} (hg : g.Closed) {fi : FirstInfo} (hfix : firstRound g fi = fi)
+    {α β : List Sym} (h : SDerives g α β) :
+    (∀ a ∈ (firstOfString fi β).1, a ∈ (firstOfString fi α).1) ∧
+    ((firstOfString fi β).2 = true → (firstOfString fi α).2 = true) := by
+  induction h with
+  | refl _ => exact ⟨fun _ h => h, fun h => h⟩
+  | @step pre post rhs β n k hk _ ih =>
+    have hmem : rhs ∈ g.alts n := List.mem_of_getElem? hk
+    have hn : n < g.numNT := alts_lhs_lt hg hmem
+    have hF : ∀ a ∈ (firstOfString fi rhs).1, a ∈ fi.firstOf n := by
+      intro a ha
+      have : a ∈ (firstRound g fi).firstOf n := by
+        rw [round_firstOf hn, roundAcc, mem_foldl_stepF]
+        exact Or.inr ⟨rhs, hmem, ha⟩
+      rwa [hfix] at this
+    have hN : (firstOfString fi rhs).2 = true → fi.nullOf n = true := by
+      intro hr
+      have : (firstRound g fi).nullOf n = true := by
+        rw [round_nullOf hn, roundAcc, null_foldl_stepF]
+        exact Or.inr ⟨rhs, hmem, hr⟩
+      rwa [hfix] at this
+    have e1 : pre ++ Sym.n n :: post = pre ++ ([Sym.n n] ++ post) := by simp
+    have hF1 : ∀ a, a ∈ (firstOfString fi [Sym.n n]).1 ↔ a ∈ fi.firstOf n := by
+      intro a; rw [fos_n]; split <;> simp [fos_nil, mem_unionNat]
+    have hN1 : (firstOfString fi [Sym.n n]).2 = true ↔ fi.nullOf n = true := by
+      rw [fos_n]; split <;> simp_all [fos_nil]
+    constructor
+    · intro a ha
+      have := ih.1 a ha
+      rw [List.append_assoc, mem_fos_append, mem_fos_append] at this
+      rw [e1, mem_fos_append, mem_fos_append, hF1, hN1]
+      grind
+    · intro hb
+      have := ih.2 hb
+      rw [List.append_assoc, null_fos_append, null_fos_append] at this
+      rw [e1, null_fos_append, null_fos_append, hN1]
+      grind
+
+theorem fix_complete {g : Grammar} (hg : g.Closed) {fi : FirstInfo} (hfix : firstRound g fi = fi)
+    (n : Nat) :
+    (∀ a, First g n a → a ∈ fi.firstOf n) ∧ (Nullable g n → fi.nullOf n = true) := by
+  constructor
+  · rintro a ⟨β, hβ⟩
+    have := (fix_mono hg hfix hβ).1 a (by simp [fos_t])
+    rw [fos_n] at this
+    split at this <;> simpa [fos_nil, mem_unionNat] using this
+  · intro h
+    have := (fix_mono hg hfix h).2 (by simp [fos_nil])
+    rw [fos_n] at this
+    split at this <;> simp_all
+
+/-! ### the iteration reaches a fixed point within its fuel -/
+
+theorem nodup_length_le {l m : List Nat} (hl : l.Nodup) (hs : ∀ x ∈ l, x ∈ m) :
+    l.length ≤ m.length := by
+  induction l generalizing m with
+  | nil => simp
+  | cons x l ih =>
+    have hx : x ∈ m := hs x (by simp)
+    rw [List.nodup_cons] at hl
+    have h1 : l.length ≤ (m.erase x).length := by
+      apply ih hl.2
+      intro y hy
+      have hne : y ≠ x := by intro h; subst h; exact hl.1 hy
+      exact (List.mem_erase_of_ne hne).2 (hs y (by simp [hy]))
+    rw [List.length_erase_of_mem hx] at h1
+    have : 0 < m.length := List.length_pos_of_mem hx
+    simp only [List.length_cons]
+    omega
+
+theorem sum_range_mono (f h : Nat → Nat) (N : Nat) (H : ∀ i, i < N → f i ≤ h i) :
+    ((List.range N).map f).sum ≤ ((List.range N).map h).sum ∧
+    (((List.range N).map f).sum = ((List.range N).map h).sum → ∀ i, i < N → f i = h i) := by
+  induction N with
+  | zero => simp
+  | succ N ih =>
+    have ih' := ih (fun i hi => H i (by omega))
+    have hN := H N (by omega)
+    simp only [List.range_succ, List.map_append, List.sum_append, List.map_cons, List.map_nil,
+      List.sum_cons, List.sum_nil, Nat.add_zero]
+    refine ⟨by omega, ?_⟩
+    intro heq i hi
+    by_cases hiN : i = N
+    · subst hiN; omega
+    · exact ih'.2 (by omega) i (by omega)
+
+theorem sum_range_le_mul (f : Nat → Nat) (N c : Nat) (H : ∀ i, i < N → f i ≤ c) :
+    ((List.range N).map f).sum ≤ N * c := by
+  induction N with
+  | zero => simp
+  | succ N ih =>
+    have ih' := ih (fun i hi => H i (by omega))
+    have hN := H N (by omega)
+    simp only [List.range_succ, List.map_append, List.sum_append, List.map_cons, List.map_nil,
+      List.sum_cons, List.sum_nil, Nat.add_zero, Nat.succ_mul]
+    omega
+
+/-- invariant of the iteration -/
+def Inv (g : Grammar) (fi : FirstInfo) : Prop :=
+  fi.firsts.length = g.numNT ∧ fi.nullable.length = g.numNT ∧
+  ∀ n, (fi.firstOf n).Nodup ∧ ∀ a ∈ fi.firstOf n, a ∈ g.terminals
+
+theorem fos_terminals {g : Grammar} {fi : FirstInfo}
+    (hfi : ∀ n, ∀ a ∈ fi.firstOf n, a ∈ g.terminals) (ss : List Sym)
+    (hss : ∀ i, Sym.t i ∈ ss → i ∈ g.terminals) :
+    ∀ a ∈ (firstOfString fi ss).1, a ∈ g.terminals := by
+  induction ss with
+  | nil => simp [fos_nil]
+  | cons s r ih =>
+    have ih' := ih (fun i hi => hss i (by simp [hi]))
+    cases s with
+    | eps => simp [fos_eps]
+    | t i =>
+      intro a ha
+      simp [fos_t] at ha
+      subst ha
+      exact hss a (by simp)
+    | n k =>
+      rw [fos_n]
+      split
+      · intro a ha
+        rw [mem_unionNat] at ha
+        rcases ha with ha | ha
+        · exact hfi k a ha
+        · exact ih' a ha
+      · exact hfi k
+
+theorem inv_round {g : Grammar} {fi : FirstInfo} (h : Inv g fi) : Inv g (firstRound g fi) := by
+  refine ⟨round_firsts_length g fi, round_nullable_length g fi, ?_⟩
+  intro n
+  by_cases hn : n < g.numNT
+  · rw [round_firstOf hn, roundAcc]
+    refine ⟨nodup_foldl_stepF _ _ _ (h.2.2 n).1, ?_⟩
+    intro a ha
+    rw [mem_foldl_stepF] at ha
+    rcases ha with ha | ⟨rhs, hrhs, ha⟩
+    · exact (h.2.2 n).2 a ha
+    · exact fos_terminals (fun m => (h.2.2 m).2) rhs (fun i hi => alts_terminal hrhs hi) a ha
+  · rw [round_firstOf_ge (by omega)]
+    simp
+
+/-- number of facts recorded in `fi` -/
+def mu (g : Grammar) (fi : FirstInfo) : Nat :=
+  ((List.range g.numNT).map
+    (fun n => (fi.firstOf n).length + (if fi.nullOf n = true then 1 else 0))).sum
+
+theorem mu_le {g : Grammar} {fi : FirstInfo} (h : Inv g fi) :
+    mu g fi ≤ g.numNT * (g.terminals.eraseDups.length + 1) := by
+  apply sum_range_le_mul
+  intro n _
+  have : (fi.firstOf n).length ≤ g.terminals.eraseDups.length :=
+    nodup_length_le (h.2.2 n).1 (fun x hx => List.mem_eraseDups.2 ((h.2.2 n).2 x hx))
+  split <;> omega
+
+theorem firstOf_eq_getElem {fi : FirstInfo} {n : Nat} (h : n < fi.firsts.length) :
+    fi.firstOf n = fi.firsts[n] := by
+  simp [FirstInfo.firstOf, h]
+
+theorem nullOf_eq_getElem {fi : FirstInfo} {n : Nat} (h : n < fi.nullable.length) :
+    fi.nullOf n = fi.nullable[n] := by
+  simp [FirstInfo.nullOf, h]
+
+theorem mu_round_lt {g : Grammar} {fi : FirstInfo} (h : Inv g fi) (hne : firstRound g fi ≠ fi) :
+    mu g fi < mu g (firstRound g fi) := by
+  have hpre : ∀ n, n < g.numNT → fi.firstOf n <+: (firstRound g fi).firstOf n := by
+    intro n hn
+    rw [round_firstOf hn, roundAcc]
+    exact prefix_foldl_stepF fi (g.alts n) (fi.firstOf n, fi.nullOf n)
+  have hnul : ∀ n, n < g.numNT → fi.nullOf n = true → (firstRound g fi).nullOf n = true := by
+    intro n hn hh
+    rw [round_nullOf hn, roundAcc, null_foldl_stepF]
+    exact Or.inl hh
+  have hpt : ∀ n, n < g.numNT →
+      (fi.firstOf n).length + (if fi.nullOf n = true then 1 else 0) ≤
+      ((firstRound g fi).firstOf n).length +
+        (if (firstRound g fi).nullOf n = true then 1 else 0) := by
+    intro n hn
+    have h1 := (hpre n hn).length_le
+    have h2 := hnul n hn
+    split <;> split <;> simp_all <;> omega
+  have hm := sum_range_mono _ _ g.numNT hpt
+  have hle : mu g fi ≤ mu g (firstRound g fi) := hm.1
+  rcases Nat.lt_or_ge (mu g fi) (mu g (firstRound g fi)) with hlt | hge
+  · exact hlt
+  · exfalso
+    apply hne
+    have heq := hm.2 (Nat.le_antisymm hle hge)
+    have hfo : ∀ n, n < g.numNT → (firstRound g fi).firstOf n = fi.firstOf n ∧
+        (firstRound g fi).nullOf n = fi.nullOf n := by
+      intro n hn
+      have h0 := heq n hn
+      have h1 := (hpre n hn).length_le
+      have h2 := hnul n hn
+      have hlen : (fi.firstOf n).length = ((firstRound g fi).firstOf n).length := by
+        split at h0 <;> split at h0 <;> simp_all <;> omega
+      refine ⟨((hpre n hn).eq_of_length hlen).symm, ?_⟩
+      rw [hlen] at h0
+      cases hA : fi.nullOf n <;> cases hB : (firstRound g fi).nullOf n <;> simp_all
+    have hl1 := round_firsts_length g fi
+    have hl2 := round_nullable_length g fi
+    have e1 : (firstRound g fi).firsts = fi.firsts := by
+      apply List.ext_getElem (by rw [hl1, h.1])
+      intro i hi1 hi2
+      rw [← firstOf_eq_getElem hi1, ← firstOf_eq_getElem hi2]
+      exact (hfo i (by omega)).1
+    have e2 : (firstRound g fi).nullable = fi.nullable := by
+      apply List.ext_getElem (by rw [hl2, h.2.1])
+      intro i hi1 hi2
+      rw [← nullOf_eq_getElem hi1, ← nullOf_eq_getElem hi2]
+      exact (hfo i (by omega)).2
+    cases hr : firstRound g fi with
+    | mk a b =>
+      cases fi with
+      | mk c d =>
+        rw [hr] at e1 e2
+        simp at e1 e2
+        rw [e1, e2]
+
+theorem iter_fix {g : Grammar} (k : Nat) {fi : FirstInfo} (h : Inv g fi)
+    (hk : g.numNT * (g.terminals.eraseDups.length + 1) < mu g fi + k) :
+    firstRound g (firstIter g k fi) = firstIter g k fi := by
+  induction k generalizing fi with
+  | zero => have := mu_le h; omega
+  | succ k ih =>
+    simp only [firstIter]
+    split
+    · assumption
+    · rename_i hne
+      have := mu_round_lt h hne
+      exact ih (inv_round h) (by omega)
+
+theorem inv_init (g : Grammar) : Inv g (initFI g) := by
+  refine ⟨by simp [initFI], by simp [initFI], ?_⟩
+  intro n
+  rw [init_firstOf]
+  simp
+
+theorem firstSets_fix (g : Grammar) : firstRound g (firstSets g) = firstSets g := by
+  rw [firstSets_eq]
+  exact iter_fix _ (inv_init g) (by omega)
+
+/-! ### the two theorems -/
+
+theorem first_correct (g : Grammar) (hg : g.Closed) (n a : Nat) :
+    a ∈ (firstSets g).firstOf n ↔ First g n a :=
+  ⟨(firstSets_sound g).1 n a, (fix_complete hg (firstSets_fix g) n).1 a⟩
+
+theorem nullable_correct (g : Grammar) (hg : g.Closed) (n : Nat) :
+    (firstSets g).nullOf n = true ↔ Nullable g n :=
+  ⟨(firstSets_sound g).2 n, (fix_complete hg (firstSets_fix g) n).2⟩
+
+end FirstProofs
 end Theo
